@@ -80,6 +80,7 @@ def fixCut (buf : Bytes) : Except Err (Option (Bytes × Bytes)) :=
       | none => .ok none
       | some stop => do
           let n ← parseIntBytes ((buf.take stop).drop (start + 1))
+          if n < 0 then .error .value else                 -- `if body_length < 0: raise ValueError`
           let msgLen : Int := ((stop + 1 : Nat) : Int) + n + 7
           if (buf.length : Int) < msgLen then .ok none
           else
